@@ -147,6 +147,9 @@ def check_move(eng, base, info, dest, marker, oc):
                     if m["props"].get(kk) != vv:
                         probs.append(("moved note lost property %s::%s (now %r)" % (kk, vv, m["props"].get(kk)), None))
                         break
+        # a known finding explains a problem only when both files are what the modelled (unchanged) code produces
+        if not ok:
+            probs = [(w, None) for w, _ in probs]
         # an unclassified problem is reported before a known one
         probs.sort(key=lambda wt: wt[1] is not None)
         for what, trig in probs[:1]:
